@@ -26,6 +26,8 @@ type Hooks struct {
 	Stmt func(x *Exec, n ast.Node, s St) (out []St, handled bool)
 	// Assign sees every assignment after the base handled it.
 	Assign func(x *Exec, as *ast.AssignStmt, s St) []St
+	// PreAssign sees every assignment before the base invalidates the targets.
+	PreAssign func(x *Exec, as *ast.AssignStmt, s St) St
 	// Return sees every return before the defers run.
 	Return func(x *Exec, ret *ast.ReturnStmt, s St) []St
 	// Exit sees every top-level exit after the defers ran.
@@ -40,8 +42,9 @@ type Hooks struct {
 }
 
 type Base struct {
-	H      Hooks
-	Inline map[string]bool // funcKeys of callees to inline
+	H       Hooks
+	noAlias bool
+	Inline  map[string]bool // funcKeys of callees to inline
 	exprs  []ast.Expr
 	exprID map[ast.Expr]int
 }
@@ -101,6 +104,9 @@ func (b *Base) Term(x *Exec, e ast.Expr, s St) (string, bool) {
 			if a := s.Get("arg:" + objID(o)); a != "" {
 				return a, true
 			}
+			if a := s.Get("tm:" + objID(o)); a != "" && !b.noAlias {
+				return a, true // local pointer alias: kv := e.Value.(*entry)
+			}
 			return objID(o), true
 		}
 		return "", false
@@ -122,6 +128,12 @@ func (b *Base) Term(x *Exec, e ast.Expr, s St) (string, bool) {
 			return "", false
 		}
 		return "*" + bt, true
+	case *ast.TypeAssertExpr:
+		bt, ok := b.Term(x, e.X, s)
+		if !ok || e.Type == nil {
+			return "", false
+		}
+		return bt + ".(" + exprStr(e.Type) + ")", true
 	case *ast.BinaryExpr:
 		if e.Op == token.ADD || e.Op == token.SUB {
 			lt, ok1 := b.Term(x, e.X, s)
@@ -156,6 +168,19 @@ func (b *Base) Term(x *Exec, e ast.Expr, s St) (string, bool) {
 	return "", false
 }
 
+// LTerm is Term for an assignment target: local aliases are not followed.
+func (b *Base) LTerm(x *Exec, e ast.Expr, s St) (string, bool) {
+	old := b.noAlias
+	b.noAlias = true
+	defer func() { b.noAlias = old }()
+	if id, ok := ast.Unparen(e).(*ast.Ident); ok {
+		return b.Term(x, id, s)
+	}
+	// x.f = ...: the base expression may follow aliases, the target itself is the field
+	b.noAlias = old
+	return b.Term(x, e, s)
+}
+
 // VTerm is Term for a value position: an integer local known to hold a
 // constant is replaced by that constant.
 func (b *Base) VTerm(x *Exec, e ast.Expr, s St) (string, bool) {
@@ -184,7 +209,8 @@ func mentionsRange(str string, lo, hi token.Pos) bool {
 func isTrackKey(k string) bool {
 	return strings.HasPrefix(k, "n:") || strings.HasPrefix(k, "b:") || strings.HasPrefix(k, "al:") ||
 		strings.HasPrefix(k, "p:") || strings.HasPrefix(k, "arg:") || strings.HasPrefix(k, "v:") ||
-		strings.HasPrefix(k, "c:") || strings.HasPrefix(k, "sub:") || strings.HasPrefix(k, "validated:")
+		strings.HasPrefix(k, "c:") || strings.HasPrefix(k, "sub:") || strings.HasPrefix(k, "validated:") ||
+		strings.HasPrefix(k, "tm:") || strings.HasPrefix(k, "lin:")
 }
 
 // Invalidate forgets everything known about term t (and what depends on it).
@@ -196,7 +222,12 @@ func (b *Base) Invalidate(s St, t string) St {
 		if !isTrackKey(k) || strings.HasPrefix(k, "arg:") {
 			return false
 		}
-		return containsTerm(k, t) || (strings.HasPrefix(k, "al:") && containsTerm(v, t))
+		if strings.HasPrefix(k, "al:") || strings.HasPrefix(k, "tm:") || strings.HasPrefix(k, "lin:") {
+			if containsTerm(v, t) {
+				return true
+			}
+		}
+		return containsTerm(k, t)
 	})
 }
 
@@ -249,9 +280,73 @@ func (b *Base) Nil(x *Exec, e ast.Expr, s St) string {
 		if t == "nil" {
 			return "nil"
 		}
-		return s.Get("n:" + t)
+		if v := s.Get("n:" + t); v != "" {
+			return v
+		}
+		if strings.HasPrefix(t, "g:") && globalNonNil(x.Fn.P, info, e) {
+			return "nonnil"
+		}
 	}
 	return ""
+}
+
+var globalNonNilCache = map[types.Object]bool{}
+
+// globalNonNil: e names a package-level variable that is initialised with a
+// non-nil value (errors.New, status.Error, &T{}, ...) and never assigned
+// elsewhere in its package (error sentinels).
+func globalNonNil(p *Prog, info *types.Info, e ast.Expr) bool {
+	var o types.Object
+	switch e := ast.Unparen(e).(type) {
+	case *ast.Ident:
+		o = identObj(info, e)
+	case *ast.SelectorExpr:
+		o = info.Uses[e.Sel]
+	}
+	v, ok := o.(*types.Var)
+	if !ok || v.Pkg() == nil || v.Parent() != v.Pkg().Scope() {
+		return false
+	}
+	if r, ok := globalNonNilCache[v]; ok {
+		return r
+	}
+	res := false
+	pkg := p.All[v.Pkg().Path()]
+	if pkg != nil {
+		assigned := false
+		for _, f := range pkg.Syntax {
+			ast.Inspect(f, func(n ast.Node) bool {
+				switch n := n.(type) {
+				case *ast.ValueSpec:
+					for i, name := range n.Names {
+						if pkg.TypesInfo.Defs[name] == v && i < len(n.Values) {
+							val := ast.Unparen(n.Values[i])
+							switch val := val.(type) {
+							case *ast.CallExpr:
+								res = nonNilCall(pkg.TypesInfo, val)
+							case *ast.UnaryExpr:
+								res = val.Op == token.AND
+							case *ast.CompositeLit, *ast.FuncLit:
+								res = true
+							}
+						}
+					}
+				case *ast.AssignStmt:
+					for _, l := range n.Lhs {
+						if identObj(pkg.TypesInfo, l) == v {
+							assigned = true
+						}
+					}
+				}
+				return true
+			})
+		}
+		if assigned {
+			res = false
+		}
+	}
+	globalNonNilCache[v] = res
+	return res
 }
 
 // nonNilCall: calls whose (single, or error) result is never nil.
@@ -261,6 +356,63 @@ func nonNilCall(info *types.Info, c *ast.CallExpr) bool {
 		modPath + "/cache/disk.internalErr", modPath + "/cache/disk.badReqErr",
 		"io.NopCloser", "bytes.NewReader", "bytes.NewBuffer", "strings.NewReader",
 		"google.golang.org/grpc/status.Errorf", "google.golang.org/grpc/status.Error":
+		return true
+	}
+	// module functions all of whose returns are syntactically non-nil
+	// (derived from their bodies: internalErr, badReqErr, annotate.Err, ...)
+	if f := Callee(info, c); f != nil && activeProg != nil {
+		if fi := activeProg.FuncOf(f); fi != nil {
+			return moduleNonNil(fi)
+		}
+	}
+	return false
+}
+
+var activeProg *Prog
+var moduleNonNilCache = map[*FuncInfo]int{}
+
+func moduleNonNil(fi *FuncInfo) bool {
+	if v, ok := moduleNonNilCache[fi]; ok {
+		return v == 1
+	}
+	moduleNonNilCache[fi] = 0 // recursion guard
+	sig := fi.Obj.Type().(*types.Signature)
+	if sig.Results().Len() != 1 {
+		return false
+	}
+	info := fi.Pkg.TypesInfo
+	ok, n := true, 0
+	ast.Inspect(fi.Decl.Body, func(m ast.Node) bool {
+		if _, isLit := m.(*ast.FuncLit); isLit {
+			return false
+		}
+		r, isRet := m.(*ast.ReturnStmt)
+		if !isRet {
+			return true
+		}
+		n++
+		if len(r.Results) != 1 {
+			ok = false
+			return true
+		}
+		e := ast.Unparen(r.Results[0])
+		switch e := e.(type) {
+		case *ast.UnaryExpr:
+			if e.Op != token.AND {
+				ok = false
+			}
+		case *ast.CompositeLit:
+		case *ast.CallExpr:
+			if !nonNilCall(info, e) {
+				ok = false
+			}
+		default:
+			ok = false
+		}
+		return true
+	})
+	if ok && n > 0 {
+		moduleNonNilCache[fi] = 1
 		return true
 	}
 	return false
@@ -374,6 +526,59 @@ func relLookup(s St, l, op, r string) (bool, bool) {
 			return false, true
 		}
 	}
+	// constant bounds
+	cst := func(x string) (int64, bool) {
+		if !strings.HasPrefix(x, "#") {
+			return 0, false
+		}
+		n, err := strconv.ParseInt(x[1:], 10, 64)
+		return n, err == nil
+	}
+	if c, ok := cst(l); ok && !strings.HasPrefix(r, "#") {
+		lo, hi, hasLo, hasHi := termBounds(s, r)
+		switch op {
+		case "<": // c < t
+			if hasLo && lo > c {
+				return true, true
+			}
+			if hasHi && hi <= c {
+				return false, true
+			}
+		case "<=":
+			if hasLo && lo >= c {
+				return true, true
+			}
+			if hasHi && hi < c {
+				return false, true
+			}
+		case "==":
+			if (hasLo && lo > c) || (hasHi && hi < c) {
+				return false, true
+			}
+			if hasLo && hasHi && lo == c && hi == c {
+				return true, true
+			}
+		}
+	}
+	if c, ok := cst(r); ok && !strings.HasPrefix(l, "#") {
+		lo, hi, hasLo, hasHi := termBounds(s, l)
+		switch op {
+		case "<": // t < c
+			if hasHi && hi < c {
+				return true, true
+			}
+			if hasLo && lo >= c {
+				return false, true
+			}
+		case "<=":
+			if hasHi && hi <= c {
+				return true, true
+			}
+			if hasLo && lo > c {
+				return false, true
+			}
+		}
+	}
 	return false, false
 }
 
@@ -388,7 +593,150 @@ func (b *Base) setAtom(s St, key string, truth bool) []St {
 		}
 		return nil
 	}
-	return []St{s.Set(key, want)}
+	ns := s.Set(key, want)
+	// integer sanity: contradictory constant bounds on a term make the path infeasible
+	if l, _, r, ok := parseAtom(key); ok {
+		for _, t := range []string{l, r} {
+			if !strings.HasPrefix(t, "#") {
+				lo, hi, hasLo, hasHi := termBounds(ns, t)
+				if hasLo && hasHi && lo > hi {
+					return nil
+				}
+			}
+		}
+	}
+	return []St{ns}
+}
+
+// parseAtom splits "p:L<R" / "p:L<=R" / "p:L==R".
+func parseAtom(key string) (l, op, r string, ok bool) {
+	if !strings.HasPrefix(key, "p:") {
+		return
+	}
+	body := key[2:]
+	depth := 0
+	for i := 0; i < len(body); i++ {
+		switch body[i] {
+		case '(', '[':
+			depth++
+		case ')', ']':
+			depth--
+		case '"':
+			// skip string constants
+			j := i + 1
+			for j < len(body) && body[j] != '"' {
+				if body[j] == '\\' {
+					j++
+				}
+				j++
+			}
+			i = j
+		case '<':
+			if depth == 0 {
+				if i+1 < len(body) && body[i+1] == '=' {
+					return body[:i], "<=", body[i+2:], true
+				}
+				return body[:i], "<", body[i+1:], true
+			}
+		case '=':
+			if depth == 0 && i+1 < len(body) && body[i+1] == '=' {
+				return body[:i], "==", body[i+2:], true
+			}
+		}
+	}
+	return
+}
+
+// termBounds derives constant integer bounds of term t from the atoms of s.
+func termBounds(s St, t string) (lo, hi int64, hasLo, hasHi bool) {
+	updLo := func(v int64) {
+		if !hasLo || v > lo {
+			lo, hasLo = v, true
+		}
+	}
+	updHi := func(v int64) {
+		if !hasHi || v < hi {
+			hi, hasHi = v, true
+		}
+	}
+	cst := func(x string) (int64, bool) {
+		if !strings.HasPrefix(x, "#") {
+			return 0, false
+		}
+		n, err := strconv.ParseInt(x[1:], 10, 64)
+		return n, err == nil
+	}
+	if strings.HasPrefix(t, "len(") {
+		updLo(0)
+	}
+	var neq []int64
+	for k, v := range s.m {
+		if !strings.HasPrefix(k, "p:") || !strings.Contains(k, t) {
+			continue
+		}
+		l, op, r, ok := parseAtom(k)
+		if !ok {
+			continue
+		}
+		T := v == "T"
+		if l == t {
+			if c, ok := cst(r); ok {
+				switch op {
+				case "<":
+					if T {
+						updHi(c - 1)
+					} else {
+						updLo(c)
+					}
+				case "<=":
+					if T {
+						updHi(c)
+					} else {
+						updLo(c + 1)
+					}
+				}
+			}
+		}
+		if r == t {
+			if c, ok := cst(l); ok {
+				switch op {
+				case "<":
+					if T {
+						updLo(c + 1)
+					} else {
+						updHi(c)
+					}
+				case "<=":
+					if T {
+						updLo(c)
+					} else {
+						updHi(c - 1)
+					}
+				case "==":
+					if T {
+						updLo(c)
+						updHi(c)
+					} else {
+						neq = append(neq, c)
+					}
+				}
+			}
+		}
+	}
+	for changed := true; changed; {
+		changed = false
+		for _, c := range neq {
+			if hasLo && lo == c {
+				lo++
+				changed = true
+			}
+			if hasHi && hi == c {
+				hi--
+				changed = true
+			}
+		}
+	}
+	return
 }
 
 // Refine returns the refinements of s under cond == truth (nil: infeasible).
@@ -629,7 +977,7 @@ func (b *Base) AssignValue(x *Exec, lhs ast.Expr, rhs ast.Expr, s St) St {
 	if id, ok := lhs.(*ast.Ident); ok && id.Name == "_" {
 		return s
 	}
-	t, ok := b.Term(x, lhs, s)
+	t, ok := b.LTerm(x, lhs, s)
 	if !ok {
 		return s
 	}
@@ -749,7 +1097,7 @@ func (b *Base) termsOf(x *Exec, e ast.Expr, s St) ([]string, bool) {
 }
 
 func (b *Base) zeroValue(x *Exec, id *ast.Ident, s St) St {
-	t, ok := b.Term(x, id, s)
+	t, ok := b.LTerm(x, id, s)
 	if !ok {
 		return s
 	}
@@ -885,6 +1233,9 @@ func (b *Base) Node(x *Exec, n ast.Node, s St) []St {
 func (b *Base) node1(x *Exec, n ast.Node, s St) []St {
 	switch n := n.(type) {
 	case *ast.AssignStmt:
+		if b.H.PreAssign != nil {
+			s = b.H.PreAssign(x, n, s)
+		}
 		var res []St
 		if len(n.Rhs) == 1 {
 			if call, ok := ast.Unparen(n.Rhs[0]).(*ast.CallExpr); ok {
